@@ -20,6 +20,7 @@ import (
 
 // Program is one loaded Go package with SSA and contracts.
 type Program struct {
+	retainsCache map[string]bool
 	Dir       string
 	Fset      *token.FileSet
 	Pkg       *packages.Package
@@ -50,6 +51,7 @@ type Contract struct {
 	Modifies  []string
 	Consumes  []string
 	Fresh     []string
+	NoRetain  []string // parameters whose own storage (or a spare-capacity extension of it) must not be reachable from the result
 	Carries   []string
 	Uses      []string // lemmas
 	Pure      bool
@@ -165,6 +167,8 @@ func parseContractsP(path string, into map[string]*Contract, p *Program) error {
 			cur.Consumes = append(cur.Consumes, strings.Fields(rest)...)
 		case "fresh":
 			cur.Fresh = append(cur.Fresh, strings.Fields(rest)...)
+		case "noretain":
+			cur.NoRetain = append(cur.NoRetain, strings.Fields(rest)...)
 		case "carries":
 			cur.Carries = append(cur.Carries, strings.Fields(rest)...)
 		case "uses":
